@@ -693,6 +693,12 @@ size_t varintBP128DeltaEncode64(uint8_t *dst, const uint64_t *values,
         meta->blockCount =
             (count + VARINT_BP128_BLOCK_SIZE - 2) / VARINT_BP128_BLOCK_SIZE;
         meta->encodedBytes = (size_t)(ptr - dst);
+        /* same convention as varintBP128DeltaEncode32: size of the last delta
+         * block (count - 1 deltas in total), a full block when it divides */
+        meta->lastBlockSize = (count - 1) % VARINT_BP128_BLOCK_SIZE;
+        if (meta->lastBlockSize == 0) {
+            meta->lastBlockSize = VARINT_BP128_BLOCK_SIZE;
+        }
         meta->maxBitWidth = maxBitWidth;
     }
 
